@@ -6,6 +6,9 @@
             (n1 shape (x<Last-Event-Id value> ...) onsopt (msg ...) (call ...) perropt script)
               one request through Server.ServeHTTP with a recording Provider that makes the
               calls on the subscription's client and returns nil / an error with that text
+            (n2 (msg ...) (call ...))
+              the same through a real net/http server and client on the loopback interface;
+              observed (n<status> x<Content-Type> x<body> (n<returned> ...))
      shape   = (n<FlushError?> n<Flush?> unwrapopt)     unwrapopt = () | (shape)
      msg     = (idopt typeopt z<retry ns> ((n<comment?> x<text>) ...))
      call    = (n0 n<msg index>) Send | (n1) Flush
@@ -80,6 +83,14 @@ Definition run_session (i : val) : val :=
           let '(rs, _, ok) := run_calls (mksess (match k with RWFlushError => true | RWFlusher => false end) false script) calls in
           VL (VN 0 :: map enc_cres rs ++ (if ok then [] else [vpanic_s]))
       end
+  | 2%N =>
+      (* a real net/http server and client, nothing fails: the client sees the implicit 200,
+         the Content-Type the session set, and everything the writer accepted *)
+      let pool := map dec_msg (as_l (nth_val 1 i)) in
+      let calls := map (dec_call pool) (as_l (nth_val 2 i)) in
+      let '(rs, _, ok) := run_calls (mksess true false []) calls in
+      let ct := match filter is_header_set (full_log rs) with LHeaderSet _ v :: _ => v | _ => [] end in
+      VL [VN 200; VB ct; VB (accepted (full_log rs)); VL (map (fun r : cres => VN (fst r)) rs ++ (if ok then [] else [vpanic_s]))]
   | _ =>
       let w := dec_shape shape_fuel (nth_val 1 i) in
       let h := map as_b (as_l (nth_val 2 i)) in
@@ -127,6 +138,14 @@ Definition holds_session (i o : val) : bool :=
         | _ => false
         end
       else true (* Upgrade on a writer that cannot flush: the property speaks about ServeHTTP only *)
+  | 2%N =>
+      (* what the client received: 200, text/event-stream, the concatenation of the encodings *)
+      let pool := map dec_msg (as_l (nth_val 1 i)) in
+      let calls := map (dec_call pool) (as_l (nth_val 2 i)) in
+      (as_n (nth_val 0 o) =? 200)%N &&
+      bytes_eqb (as_b (nth_val 1 o)) content_type_value &&
+      bytes_eqb (as_b (nth_val 2 o)) (concat (map call_wire calls)) &&
+      forallb (fun v => (as_n v =? 0)%N) (as_l (nth_val 3 o))
   | _ =>
       let w := dec_shape shape_fuel (nth_val 1 i) in
       let h := map as_b (as_l (nth_val 2 i)) in
